@@ -210,6 +210,7 @@ M("C09", "linear-formula", INTERP, "        return y0 + (y1 - y0) * (x - x0) / (
 M("C09", "wrong-frame-label", EPH, "        return StateVector(self.interp(date), date, self.form, self.frame)", "        return StateVector(self.interp(date), date, self.form, self._orbits[-1].frame)", "R09.2")
 
 # ---- C10
+M("C10", "visibility-converts-in-place", STATIONS, "            point = point.copy(frame=self, form=\"spherical\")\n", "            point.frame = self\n            point.form = \"spherical\"\n", "R10.8")
 M("C10", "clear-conditional", BASE, "        self.clear_listeners(listeners)\n", "        if listeners:\n            pass\n", "R10.1")
 M("C10", "prev-only-on-event", LIS, "            # Saving of the current value for the next iteration\n            listener.prev = orb", "                # Saving of the current value for the next iteration\n                listener.prev = orb", "R10.2")
 M("C10", "unsorted", LIS, "        return sorted(results, key=lambda x: x.date)", "        return results", "R10.2")
